@@ -2,6 +2,8 @@ package main
 
 import (
 	"fmt"
+	"go/ast"
+	"os"
 	"go/types"
 	"sort"
 	"strings"
@@ -86,6 +88,18 @@ func (e *Exec) verifyFunction(fn *ssa.Function, sp *FuncSpec) {
 				continue
 			}
 			e.oblige(st2, name+"/post:"+en.Label, en.Props, g, en.Src)
+			// vacuity guard: the premise of a conditional postcondition must be reachable on some path
+			if ce, ok := en.Expr.(*ast.CallExpr); ok {
+				if id, ok := ce.Fun.(*ast.Ident); ok && id.Name == "implies" && len(ce.Args) == 2 {
+					if prem, err := e.evalSpecBool(ce.Args[0], env); err == nil && prem.S != "false" {
+						saved := st2.pc
+						st2.pc = append(append([]Term(nil), saved...), prem)
+						cv := e.oblige(st2, name+"/cover:premise:"+en.Label, en.Props, BoolLit(true), "some returning path satisfies the premise of this postcondition")
+						cv.Cover = true
+						st2.pc = saved
+					}
+				}
+			}
 		}
 		if sp.Functional != "" {
 			// the result is named by an uninterpreted function of the arguments: sound only if it
@@ -323,6 +337,88 @@ func declName(d string) string {
 	return rest[:j]
 }
 
+// relevantPc: cone of influence of the goal among the path's assumptions (assumptions sharing a
+// non-hub symbol with the goal, transitively). Dropping assumptions is sound for validity; the
+// full query is tried when the filtered one is not proved.
+func (o *Obligation) relevantPc() []Term {
+	c := o.Ctx
+	idx := map[string]int{}
+	for i, d := range c.decls {
+		idx[declName(d)] = i
+	}
+	memo := map[string]map[string]bool{}
+	var symsOf func(text string, depth int) map[string]bool
+	symsOf = func(text string, depth int) map[string]bool {
+		out := map[string]bool{}
+		smtSymbols(text, func(t string) {
+			if out[t] {
+				return
+			}
+			out[t] = true
+			if i, ok := idx[t]; ok && strings.HasPrefix(c.decls[i], "(define-fun") && depth < 12 {
+				m, ok := memo[t]
+				if !ok {
+					m = symsOf(c.decls[i][len("(define-fun "):], depth+1)
+					memo[t] = m
+				}
+				for k := range m {
+					out[k] = true
+				}
+			}
+		})
+		return out
+	}
+	hub := func(s string) bool {
+		return strings.HasPrefix(s, "alloc") || strings.HasPrefix(s, "|alloc") || s == "dyn" || s == "at" || strings.HasPrefix(s, "mix.") || s == "select" || s == "store" ||
+			s == "and" || s == "or" || s == "not" || s == "=>" || s == "=" || s == "ite" || s == "forall" || s == "exists" || s == "Int" || s == "String" || s == "Bool" || s == "Array" ||
+			s == "<" || s == "<=" || s == ">" || s == ">=" || s == "+" || s == "-" || s == "true" || s == "false" || s == "0" || s == "1" || strings.HasPrefix(s, "str.") || s == "!" || s == ":pattern" || s == "as" || s == "const" || s == "let"
+	}
+	rel := map[string]bool{}
+	for k := range symsOf(o.Goal.S, 0) {
+		if !hub(k) {
+			rel[k] = true
+		}
+	}
+	n := len(o.Pc)
+	sy := make([]map[string]bool, n)
+	for i, p := range o.Pc {
+		sy[i] = symsOf(p.S, 0)
+	}
+	in := make([]bool, n)
+	for changed := true; changed; {
+		changed = false
+		for i := 0; i < n; i++ {
+			if in[i] {
+				continue
+			}
+			hit := false
+			for k := range sy[i] {
+				if rel[k] {
+					hit = true
+					break
+				}
+			}
+			if !hit {
+				continue
+			}
+			in[i] = true
+			changed = true
+			for k := range sy[i] {
+				if !hub(k) {
+					rel[k] = true
+				}
+			}
+		}
+	}
+	var out []Term
+	for i, p := range o.Pc {
+		if in[i] {
+			out = append(out, p)
+		}
+	}
+	return out
+}
+
 func (o *Obligation) Query(withModel bool) string {
 	c := o.Ctx
 	idx := map[string]int{}
@@ -380,6 +476,18 @@ func (o *Obligation) Query(withModel bool) string {
 	if usesAt {
 		b.WriteString(atDecl)
 	}
+	var all strings.Builder
+	all.WriteString(o.Goal.S)
+	for _, p := range o.Pc {
+		all.WriteString(p.S)
+	}
+	for _, i := range ids {
+		all.WriteString(c.decls[i])
+		if ax, ok := c.symAxiom[declName(c.decls[i])]; ok {
+			all.WriteString(ax)
+		}
+	}
+	b.WriteString(mixDecls(all.String()))
 	fmt.Fprintf(&b, "; obligation %s\n", o.Name)
 	if o.Note != "" {
 		fmt.Fprintf(&b, "; %s\n", strings.ReplaceAll(o.Note, "\n", " "))
@@ -437,8 +545,23 @@ func dischargeAll(obls []*Obligation, timeoutS int) {
 			t := timeoutS
 			if o.Cover {
 				t = 2 // vacuity guards only need "not provably contradictory"
+				o.Res = Solve(o.Name, o.Query(false), t, false)
+				return
 			}
-			o.Res = Solve(o.Name, o.Query(!o.Cover), t, false)
+			// first the cone of influence of the goal (small query), then everything
+			if full := o.Pc; len(full) > 25 && os.Getenv("GOVC_COI") != "" {
+				if rel := o.relevantPc(); len(rel) < len(full) {
+					o.Pc = rel
+					r := Solve(o.Name+".coi", o.Query(false), t, false)
+					o.Pc = full
+					if r.Status == "unsat" {
+						r.Solver += " (cone of influence)"
+						o.Res = r
+						return
+					}
+				}
+			}
+			o.Res = Solve(o.Name, o.Query(true), t, false)
 		}(o)
 	}
 	wg.Wait()
